@@ -18,7 +18,21 @@ Per Bell instance (2 settings per party, two outcomes with arbitrary labels, opt
 rewrites the expression in +-1 labels (`bellAffine`, theorem bell_affine_change); an explicit exact qubit strategy
 (`checkBellStrategy_sound`) gives a lower bound and a Tsirelson dual certificate of the extended coefficient matrix
 (`checkBellDual_sound`) an upper bound of the quantum maximum; the best deterministic assignment is exact
-(`bell_det_le_opt`)."""
+(`bell_det_le_opt`).
+
+Further streams:
+
+* classical value WITH repetitions: `XORGame(prob, pred, reps=r).classical_value()` against the Lean mirror of exactly that code path
+  (`xorClassicalCall` = `to_nonlocal_game()` + the `reps` branch of `NonlocalGame.__init__` + `classical_value`; theorem xor_classical_path);
+* constructor guards (`xorInit`; theorem xor_init_accepts): every game valid within the stated tolerance must be constructible and carry the
+  stated `tol` (default eps*q0^2*q1^2, recorded only); agreement on rejections (size / sign / normalisation, in this order) is recorded as evidence only;
+* feasibility embedding into the program that `bell_inequality_max` builds (captured in-process): exact real two-qubit strategies with
+  rank-one projective measurements are embedded as W = rho (x) phi (x) psi; every captured constraint must accept them and the captured
+  objective must equal their Bell value as computed by the verified checker (`checkBellStrategy_sound`, `bell_affine_change`).
+
+What the certified interval means (all proved in Lean, Properties/C08.lean): an accepted primal certificate IS attained by a quantum strategy
+(Tsirelson's construction, `tsirelson_theorem` / `xor_quantum_optimum_bracket`), an accepted dual certificate bounds every quantum strategy, and for
+`reps = r` the interval `[(1/2+lo/2)^r, (1/2+hi/2)^r]` brackets the quantum value of the r-fold repetition (`xor_repetition_bracket`)."""
 from __future__ import annotations
 
 import itertools
@@ -30,6 +44,7 @@ from fractions import Fraction as Fr
 import numpy as np
 
 from ..cert import DM, chol_factor, frac_json
+from ..common import CorrespondenceBroken, InfraError
 from ..exact import Pure, call_rng, describe, present_nd
 from ..pool import Result, fold, run_pool, worker_driver
 
@@ -42,15 +57,24 @@ RULE = ("XOR games: corpus (CHSH in int/float/bool predicate dtype, odd-cycle ga
         "presentation: every XORGame is built from the same values in a freshly drawn presentation (probability matrix: C / Fortran / strided layout, int64 when "
         "integer-valued; predicate: the task's dtype in a drawn layout), bell_inequality_max receives its five arrays likewise (integer coefficients / labels also as "
         "int64); the handed-over objects must be untouched after every method call (also through the converted NonlocalGame, which holds references); "
-        "quantum_value (one in three), classical_value and the converted game's classical_value are called twice on the same object and must agree")
+        "quantum_value (one in three), classical_value and the converted game's classical_value are called twice on the same object and must agree; "
+        "classical value with repetitions (reps 2..3 where the enumeration of the product game is small) against the Lean mirror of the code path; "
+        "constructor stream: 60 (thorough 600) exact dyadic matrices 1..4 x 1..4, valid / size mismatch / negative entry / total off by 2^-k / exactly on the "
+        "tolerance boundary, tol defaulted or 0 / 2^-4 .. 2^-30; Bell embedding stream: 3 exact real two-qubit strategies per Bell instance (full-rank rational "
+        "state, rank-one projectors from integer vectors, second setting = computational basis) plugged into the captured cvxpy problem")
 ASSUMPTIONS = [
     "toqito computes with the float inputs it is given; the instance certified is their exact rational image",
     "tolerance 1e-3 (times the coefficient scale for Bell expressions) on SCS-solved values (DESIGN.md 4.4); classical values are compared exactly "
     "(1e-12 when the distribution is not dyadic)",
-    "Tsirelson's theorem (every PSD unit-diagonal Gram matrix is realised by a quantum strategy) and strong duality are cited; weak duality, feasibility of "
-    "unit vectors, sign vectors and quantum strategies are proved",
+    "strong duality of the Tsirelson program is cited (not needed: every instance is bracketed by certificates); weak duality, feasibility of unit vectors, sign "
+    "vectors and quantum strategies AND Tsirelson's theorem (every PSD unit-diagonal matrix is realised by a finite-dimensional quantum strategy) are proved",
     "Grothendieck's inequality beta_Q <= K_G beta_C with K_G <= 1.7823 is cited, not proved; checked on the certified values",
-    "perfect parallel repetition of the quantum value of XOR games (value of r repetitions = r-th power) is cited; the check is that the method returns the power",
+    "perfect parallel repetition of XOR games is proved for projective strategies of the r-fold game in every finite dimension (xor_parallel_repetition, "
+    "xor_repetition_bracket); general POVM strategies reduce to these by Naimark dilation (cited)",
+    "Bell embedding: cvxpy evaluates captured constraint / objective expressions faithfully (Constraint.violation(), Expression.value); that W = rho (x) phi (x) psi "
+    "(second-setting projector |0><0| fixed through aux_mat) is the reading of the code's variable follows Navascues-Vertesi and is confirmed exactly on the "
+    "unchanged tree, it is not a Lean theorem; residual tolerance 1e-9 * coefficient scale",
+    "constructor stream: rejections are outside the property's quantifier (it speaks of XOR games) and never produce a violation",
     "the quantum maximum of a Bell expression is the supremum over finite-dimensional commuting-operator strategies with +-1 observables; with marginal terms the "
     "certified upper bound is the level-1 moment bound, which can exceed the quantum maximum (interval not tight there)",
 ]
@@ -127,6 +151,11 @@ def corpus():
         _game("all-zero-pred", [[0.25, 0.25], [0.25, 0.25]], [[0, 0], [0, 0]]),
         _game("3x3-zeros", [[0.125, 0.125, 0.125], [0.125, 0.125, 0.0], [0.125, 0.0, 0.25]], [[0, 0, 0], [0, 1, 0], [0, 0, 1]]),
     ]
+    out += [
+        _game("rect-2x3-reps2", [[0.125, 0.25, 0.125], [0.25, 0.125, 0.125]], [[0, 0, 1], [0, 1, 0]], reps=2, calls=("q", "c", "cr")),
+        _game("1x3-reps3", [[0.5, 0.25, 0.25]], [[1, 0, 1]], reps=3, calls=("q", "c", "cr")),
+        _game("biased-chsh-reps2", [[0.5, 0.125], [0.125, 0.25]], chsh_f, "float", reps=2, calls=("c", "c2", "cr")),
+    ]
     for nq in (3, 5):
         p, f = _odd_cycle(nq)
         out.append(_game(f"odd-cycle-{nq}", p, f, calls=("q", "c", "conv", "npa", "ns") if nq == 3 else ("q", "c", "conv", "npa")))
@@ -158,6 +187,8 @@ def gen_game(rng, quick, i):
         calls.append("ns")
     if reps == 2 and m <= 2 and n <= 2:
         calls.append("c2")
+    if reps >= 2 and (2 ** reps) ** (min(m, n) ** reps) <= 256 and max(m, n) ** reps <= 27:
+        calls.append("cr")   # classical value WITH the task's repetitions: product game built by NonlocalGame.__init__, exact oracle = Lean mirror of the code path
     g = _game(f"rand-{kind}", prob, pred, dtype, tol, reps, calls)
     if tol is not None and tol >= 1e-6 and rng.integers(3) == 0:
         # a distribution that is only normalised within the given tolerance (non-dyadic floats)
@@ -197,6 +228,42 @@ def gen_bell(rng, quick, i):
     elif rng.integers(4) == 0:
         aval = [-1.0, 1.0]
     return {"kind": "bell", "label": form, "J": J.tolist(), "a": a.tolist(), "b": b.tolist(), "aval": aval, "bval": bval, "solver": "SCS"}
+
+
+def gen_init(rng, i):
+    """constructor guards: exact dyadic matrices (sums exact in float64), valid or malformed by an exact amount"""
+    m = int(rng.integers(1, 5))
+    n = int(rng.integers(1, 5))
+    bits = 10
+    tot = 1 << bits
+    w = rng.integers(1, 9, size=(m, n)).astype(np.int64)
+    p = (w * tot) // int(w.sum())
+    p[np.unravel_index(int(np.argmax(w)), w.shape)] += tot - int(p.sum())
+    p = p.astype(object)   # integers over 2^bits, exact
+    kind = str(rng.choice(["valid", "valid", "shape", "negative", "sum", "negative+sum", "shape+sum", "boundary"]))
+    tol_e = None if rng.integers(3) == 0 else int(rng.choice([0, 4, 8, 12, 30]))   # tol = 2^-tol_e (0 -> tol = 0.0)
+    tol = None if tol_e is None else (0.0 if tol_e == 0 else 2.0 ** -tol_e)
+    shape = [m, n]
+    scale = 1 << 40   # numerators over 2^40
+    num = [[int(v) << (40 - bits) for v in row] for row in p]
+    k = int(rng.choice([6, 10, 14, 20, 34]))   # size of the defect: 2^-k
+    d = 1 << (40 - k)
+    x, y = int(rng.integers(m)), int(rng.integers(n))
+    if "negative" in kind:
+        # one entry becomes -2^-k, the excess goes to another entry (total stays 1) unless the total is to be off as well
+        old = num[x][y]
+        num[x][y] = -d
+        if m * n > 1 and "sum" not in kind:
+            x2, y2 = [(a, b) for a in range(m) for b in range(n) if (a, b) != (x, y)][int(rng.integers(m * n - 1))]
+            num[x2][y2] += old + d
+    elif "sum" in kind:
+        num[x][y] += d if rng.integers(2) else -min(d, num[x][y])
+    if kind == "boundary" and tol is not None and tol > 0:
+        # total exactly 1 + tol: not MORE than tol away, hence accepted
+        num[x][y] += int(tol * scale)
+    if "shape" in kind:
+        shape = [[m, n + 1], [m + 1, n], [n, m] if m != n else [m + 1, n + 1]][int(rng.integers(3))]
+    return {"kind": "init", "label": kind, "m": m, "n": n, "num": num, "e": 40, "pred_shape": shape, "tol": tol}
 
 
 def bell_corpus():
@@ -610,6 +677,26 @@ def work_game(task, res: Result):
                 fail("classical_value", f"XORGame(reps=2).classical_value = {c2!r} differs from the exact classical value of the 2-fold game {float(ex)!r}", {"impl": c2, "model": str(ex), "theorem": "definition (harness brute force)"})
             if total == 1 and (ex < c_exact * c_exact or (certified and float(ex) > vbounds(2)[1] + 1e-9)):
                 res.violation("harness: 2-fold classical value outside [c^2, q^2]", {"function": "harness", "args": _desc(task, "sanity"), "c2": float(ex), "c": float(c_exact)})
+            pv = drv.ask("c08_classical_path", {"m": m, "n": n, "reps": 2, "prob": pj, "pred": fj})["value"]
+            if pv is None or _from_j(pv) != ex:
+                res.violation("harness: the Lean mirror of the classical_value code path (reps=2) differs from the harness brute force over the 2-fold game",
+                              {"function": "harness", "args": _desc(task, "sanity"), "model_path": pv, "brute_force": str(ex)})
+    # ---- classical value with the task's repetitions: XORGame(reps=r).classical_value() = NonlocalGame(prob, V, reps=r).classical_value();
+    #      oracle: the Lean mirror of exactly this code path (xorClassicalCall; theorem xor_classical_path: it is the classical value of the product game)
+    if "cr" in task["calls"] and reps >= 2:
+        ok, cr = guarded(f"classical_value(reps={reps})", lambda: float(make(reps, "cr").classical_value()))
+        if ok:
+            res.case(_desc(task, f"classical_value_reps{reps}"), nontriv, f"classical_value/reps={reps}/code-path")
+            pv = drv.ask("c08_classical_path", {"m": m, "n": n, "reps": reps, "prob": pj, "pred": fj})["value"]
+            exr = None if pv is None else _from_j(pv)
+            diff = None if exr is None else abs(Fr(cr) - exr)
+            if exr is None or (exact_dyadic and diff != 0) or diff > Fr(1, 10 ** 12):
+                fail("classical_value", f"XORGame(reps={reps}).classical_value = {cr!r} differs from the classical value of the {reps}-fold product game {None if exr is None else float(exr)!r} (Lean mirror of to_nonlocal_game().classical_value())",
+                     {"impl": cr, "model": None if exr is None else str(exr), "theorem": "xor_classical_path"})
+            elif total == 1 and exact_dyadic:
+                # sanity of the model against proved / cited facts: c^r <= classical value of the r-fold game <= q^r
+                if exr < c_exact ** reps or (certified and float(exr) > vbounds(reps)[1] + 1e-9):
+                    res.violation(f"harness: {reps}-fold classical value outside [c^r, q^r]", {"function": "harness", "args": _desc(task, "sanity"), "cr": float(exr), "c": float(c_exact)})
 
 
 # ------------------------------------------------------------------------------------------------
@@ -740,6 +827,134 @@ def certify_bell(drv, Jp, ap, bp, rng):
     return lo, hi, det, why
 
 
+# ------------------------------------------------------------------------------------------------
+# feasibility embedding into the program that bell_inequality_max builds (scheme B, second device)
+
+
+class _Captured(Exception):
+    pass
+
+
+def _capture_problem(fn):
+    """runs fn() with cvxpy.Problem.solve replaced (this process only, restored afterwards) by a recorder that keeps the Problem and aborts"""
+    import cvxpy
+    got = []
+    orig = cvxpy.Problem.solve
+
+    def fake(self, *a, **k):
+        got.append(self)
+        raise _Captured()
+
+    cvxpy.Problem.solve = fake
+    try:
+        try:
+            fn()
+        except _Captured:
+            pass
+    finally:
+        cvxpy.Problem.solve = orig
+    return got
+
+
+def _proj_frac(p, q):
+    """rank-one real projector onto (p, q) and the +-1 observable 2P - 1, exact"""
+    d = p * p + q * q
+    P = [[Fr(p * p, d), Fr(p * q, d)], [Fr(p * q, d), Fr(q * q, d)]]
+    S_int = [[p * p - q * q, 2 * p * q], [2 * p * q, q * q - p * p]]
+    return P, (d, S_int)
+
+
+def _rand_qubit_strategy(rng):
+    """exact real two-qubit strategy: full-rank rational density matrix, rank-one projective measurements; the SECOND setting of either
+    party is the computational-basis measurement (the program fixes it through `aux_mat`)"""
+    while True:
+        vs = [[int(t) for t in rng.integers(-3, 4, size=4)] for _ in range(int(rng.integers(1, 4)))]
+        vs = [v for v in vs if any(v)]
+        if vs:
+            break
+    ws = [int(rng.integers(1, 5)) for _ in vs]
+    tot = sum(ws) + 1
+    rho = [[Fr(1, 4 * tot) if i == j else Fr(0) for j in range(4)] for i in range(4)]      # weight 1/tot on the maximally mixed state: full rank
+    for w, v in zip(ws, vs):
+        nn = sum(t * t for t in v)
+        for i in range(4):
+            for j in range(4):
+                rho[i][j] += Fr(w * v[i] * v[j], tot * nn)
+    while True:
+        pa, qa, pb, qb = (int(t) for t in rng.integers(-4, 5, size=4))
+        if (pa or qa) and (pb or qb):
+            break
+    return rho, (pa, qa), (pb, qb)
+
+
+def _embed_bell(task, res, drv, bargs_of, Jp, ap, bp, const, scale, rng):
+    """W = rho (x) phi (x) psi for exact real qubit strategies: every captured constraint must accept it and the captured objective must be the
+    Bell value of the strategy (computed by the verified checker `checkBellStrategy` on the exact data)"""
+    from toqito.state_opt import bell_inequality_max
+    desc = {k: v for k, v in task.items() if k != "pres"}
+    probs = _capture_problem(lambda: bell_inequality_max(*bargs_of(), solver_name=task.get("solver", "SCS")))
+    if len(probs) != 1:
+        raise CorrespondenceBroken(f"expected one cvxpy problem from bell_inequality_max, captured {len(probs)}")
+    P = probs[0]
+    vs = P.variables()
+    if len(vs) != 1 or tuple(vs[0].shape) != (16, 16):
+        raise CorrespondenceBroken(f"bell_inequality_max (two settings): expected one 16x16 variable, found {[tuple(v.shape) for v in vs]}")
+    W = vs[0]
+    Jj = [_fj(Jp[x][y]) for x in range(2) for y in range(2)]
+    aj = [_fj(v) for v in ap]
+    bj = [_fj(v) for v in bp]
+    Z = (1, [[1, 0], [0, -1]])
+    I2 = [[1, 0], [0, 1]]
+    P0 = [[Fr(1), Fr(0)], [Fr(0), Fr(0)]]
+    for it in range(3):
+        rho, (pa, qa), (pb, qb) = _rand_qubit_strategy(rng)
+        phi, SA = _proj_frac(pa, qa)
+        psi, SB = _proj_frac(pb, qb)
+        den = 1
+        for row in rho:
+            for v in row:
+                den = den * v.denominator // math.gcd(den, v.denominator)
+        rho_f = np.array([[float(v) for v in row] for row in rho])
+        L = chol_factor(rho_f, delta=2.0 ** -30)
+        if L is None:
+            res.count("bell-embed/skipped:cholesky")
+            continue
+        r = drv.ask("c08_bell_strategy", {"m": 2, "n": 2, "N": 4, "k": 4, "J": Jj, "a": aj, "b": bj,
+                                          "rho": {"den": den, "re": [int(v * den) for row in rho for v in row]}, "Lrho": L.json(),
+                                          "A": [{"den": d, "re": [int(v) for row in _kron_int(M, I2) for v in row]} for d, M in (SA, Z)],
+                                          "B": [{"den": d, "re": [int(v) for row in _kron_int(I2, M) for v in row]} for d, M in (SB, Z)]})
+        if "ok" not in r:
+            res.count("bell-embed/skipped:" + r["reject"][:40])
+            continue
+        exact = const + _from_j(r["ok"])
+        Wv = np.kron(np.kron(rho_f, np.array([[float(v) for v in row] for row in phi])), np.array([[float(v) for v in row] for row in psi]))
+        W.save_value(Wv)
+        bad = []
+        for idx, c in enumerate(P.constraints):
+            v = c.violation()
+            rr = float(np.max(np.abs(v))) if np.size(v) else 0.0
+            if not np.isfinite(rr) or rr > 1e-9:
+                bad.append([idx, type(c).__name__, rr, str(c)[:160]])
+        obj = float(P.objective.args[0].value)
+        sdesc = dict(desc, strategy={"rho": [[str(v) for v in row] for row in rho], "alice_setting_1": [pa, qa], "bob_setting_1": [pb, qb]})
+        res.case(sdesc, True, "bell-embed/" + task["label"])
+        if bad:
+            res.violation(f"bell_inequality_max: the program it builds rejects a real two-qubit strategy with rank-one projective measurements (W = rho x phi x psi violates "
+                          f"{len(bad)} of {len(P.constraints)} constraints, e.g. {bad[0]}): the relaxation cuts off a quantum strategy, its optimum is not the quantum maximum",
+                          {"function": "bell_inequality_max (constraints)", "args": sdesc, "violated": bad[:5], "theorem": "checkBellStrategy_sound (the strategy is a quantum strategy)"})
+        if abs(obj - float(exact)) > 1e-9 * scale:
+            res.violation(f"bell_inequality_max: the objective it hands to the solver evaluates to {obj!r} at the embedding of a two-qubit strategy whose Bell value is {float(exact)!r} "
+                          f"(coefficients J={task['J']}, a={task['a']}, b={task['b']}, labels {task['aval']}, {task['bval']})",
+                          {"function": "bell_inequality_max (objective)", "args": sdesc, "impl": obj, "model": str(exact), "theorem": "checkBellStrategy_sound / bell_affine_change"})
+        else:
+            res.count("bell-embed/objective-exact")
+        if it == 0:
+            W.save_value(2 * Wv)   # negative control: trace 2
+            if not any(float(np.max(np.abs(c.violation()))) > 1e-9 for c in P.constraints):
+                raise InfraError("negative control: W with trace 2 passed every captured constraint of bell_inequality_max")
+            res.count("bell-embed/negative-control-detected")
+
+
 def work_bell(task, res: Result):
     import cvxpy
     from toqito.state_opt import bell_inequality_max
@@ -794,6 +1009,7 @@ def work_bell(task, res: Result):
         if abs(bm2 - bm) > 2 * tau:
             res.violation(f"bell_inequality_max: a second call on the same objects returns {bm2:.8f}, the first returned {bm:.8f}",
                           {"function": "bell_inequality_max", "args": desc, "values": [bm, bm2], "presentation": describe(bargs), "check": "repeat"})
+    _embed_bell(task, res, drv, lambda: [x.copy() for x in (J, a, b, aval, bval)], Jp, ap, bp, const, scale, lrng)
     info = {"function": "bell_inequality_max", "args": desc, "impl": bm, "presentation": describe(bargs), "pm1_form": {"J": [[str(v) for v in r] for r in Jp], "a": [str(v) for v in ap], "b": [str(v) for v in bp], "const": str(const)}, "tau": tau}
     dmax = float(const + det)
     if bm < dmax - tau:
@@ -815,9 +1031,52 @@ def work_bell(task, res: Result):
 # ------------------------------------------------------------------------------------------------
 
 
+
+# ------------------------------------------------------------------------------------------------
+# worker: the constructor's guards
+
+
+_INIT_MSG = {"size": "must be matrices of the same size", "negative": "must be non-negative", "sum": "must sum to 1"}
+
+
+def work_init(task, res: Result):
+    from toqito.nonlocal_games.xor_game import XORGame
+    drv = worker_driver()
+    m, n, e = task["m"], task["n"], task["e"]
+    prob = np.array([[v / (1 << e) for v in row] for row in task["num"]], dtype=float)
+    assert all(Fr(float(prob[x, y])) == Fr(task["num"][x][y], 1 << e) for x in range(m) for y in range(n))
+    pred = np.zeros(tuple(task["pred_shape"]), dtype=int)
+    tol = task["tol"]
+    r = drv.ask("c08_init", {"q0": m, "q1": n, "p0": task["pred_shape"][0], "p1": task["pred_shape"][1],
+                             "prob": [[int(task["num"][x][y]), 1 << e] for x in range(m) for y in range(n)], "tol": None if tol is None else _fj(_fr(tol))})
+    want = r["status"]
+    kw = {} if tol is None else {"tol": tol}
+    try:
+        g = XORGame(prob, pred, **kw)
+        got = "ok"
+        got_tol = Fr(float(g.tol))
+    except ValueError as ex:
+        got = next((k for k, v in _INIT_MSG.items() if v in str(ex)), "other:" + str(ex)[:80])
+        got_tol = None
+    desc = {k: task[k] for k in task if k != "pres"}
+    res.case(desc, want != "ok", f"init/{task['label']}/model={want}/tol={'default' if tol is None else 'given'}")
+    if want == "ok" and got != "ok":
+        # an XOR game valid within the stated tolerance must be constructible (theorem xor_init_accepts)
+        res.violation(f"XORGame(...) raises ({got}) on a game that is valid within the tolerance: {m}x{n}, tol={tol!r}, label {task['label']}",
+                      {"function": "XORGame.__init__", "args": desc, "impl": got, "model": want, "theorem": "xor_init_accepts"})
+    elif want == "ok" and got_tol != _from_j(r["tol"]):
+        # the value of the default tolerance is not part of the property: recorded, never a violation
+        res.count("init-guard/tol-differs-from-model")
+    else:
+        # rejections are outside the property's quantifier (it speaks of XOR games): agreement of the guard logic is recorded as evidence only
+        res.count("init-guard/" + ("agree" if want == got else f"differ/model={want}/impl={got}"))
+
+
 def work(task, res: Result):
     if task["kind"] == "game":
         work_game(task, res)
+    elif task["kind"] == "init":
+        work_init(task, res)
     else:
         work_bell(task, res)
 
@@ -833,6 +1092,7 @@ def run(ctx, model_ok=True):
         tasks.append(_game("odd-cycle-7", p7, f7, calls=("q", "c", "conv")))
     games = [gen_game(rng, quick, i) for i in range(n_games)]
     bells = [gen_bell(rng, quick, i) for i in range(n_bell)]
+    inits = [gen_init(rng, i) for i in range(60 if quick else 600)]
     # interleave so that the pool is evenly loaded
     k = 0
     while games or bells:
@@ -841,6 +1101,7 @@ def run(ctx, model_ok=True):
         if bells and k % 2 == 0:
             tasks.append(bells.pop())
         k += 1
+    tasks += inits
     prs = rng.spawn(1)[0]   # presentation stream: a child of the seeded generator (spawning does not consume the parent's draws)
     for t in tasks:
         t["pres"] = int(prs.integers(1, 2 ** 31))
@@ -852,9 +1113,12 @@ def run(ctx, model_ok=True):
 
 def replay(ctx, rec):
     task = rec["args"]
-    task = {k: v for k, v in task.items() if k != "call"}
+    task = {k: v for k, v in task.items() if k not in ("call", "strategy")}
     if task.get("kind") == "game" and "calls" not in task:
-        task["calls"] = ["q", "c", "conv", "npa", "ns"] + (["c2"] if task.get("m", 9) <= 2 and task.get("n", 9) <= 2 else [])
+        mm, nn, rr = task.get("m", 9), task.get("n", 9), task.get("reps", 1)
+        task["calls"] = ["q", "c", "conv", "npa", "ns"] + (["c2"] if mm <= 2 and nn <= 2 else [])
+        if rr >= 2 and (2 ** rr) ** (min(mm, nn) ** rr) <= 256 and max(mm, nn) ** rr <= 27:
+            task["calls"].append("cr")
     res = Result()
     work(task, res)
     fold(ctx, res)
